@@ -130,12 +130,12 @@ def main(ctx):
     cases = tlc_cases(ctx, 3, 1, False, 0)
     ctx.cov["model_pairs_exhaustive"] = len(cases)
     if ctx.quick:
-        sim = tlc_cases(ctx, 7, 3, True, 6, simulate="num=120", depth=14)
+        sim = tlc_cases(ctx, 7, 3, True, 6, simulate="num=80", depth=14)
     else:
         cases += tlc_cases(ctx, 4, 1, False, 24)
-        cases += tlc_cases(ctx, 3, 2, False, 16)
+        cases += tlc_cases(ctx, 3, 2, False, 12)
         ctx.cov["model_pairs_exhaustive"] = len(cases)
-        sim = tlc_cases(ctx, 7, 3, True, 8, simulate="num=2000", depth=14)
+        sim = tlc_cases(ctx, 7, 3, True, 8, simulate="num=1500", depth=14)
     ctx.cov["model_pairs_simulated"] = len(sim)
     cases += sim
     for k, c in enumerate(cases):
@@ -144,7 +144,7 @@ def main(ctx):
     verif.write_ndjson(cp, cases)
     # seeded random pairs beyond the model's alphabets
     ab = ctx.build("altops")
-    nrand = 2500 if ctx.quick else 40000
+    nrand = 2000 if ctx.quick else 40000
     with open(cp, "ab") as f:
         ctx.run([ab, "diffrand", "-n", str(nrand)], stdout=f)
     ctx.cov["random_pairs"] = nrand
